@@ -185,3 +185,15 @@ CHECKS["C05"] = {
         {"bin": "asan/C05", "cases": P(24, 500), "procs": P(8, 16), "size": 70, "shrink_budget": 20, "cpu_limit": 300},
     ],
 }
+
+CHECKS["C08"] = {
+    "level": "exploration",
+    "technique": "model-based scenario generation: targets with generated validity patterns x 1..3 sources derived from the target's chunk list and then damaged (body corruption, truncation, zeroing, re-sealed mis-indexing incl. planted digests, other dictionary/hash/compression), copies applied in sequence; oracle = reference digest of the bytes now in the target for every valid chunk, reference index of the source for every chunk that became valid, zero-fill of failed chunks, byte snapshots of source and of the target outside changed extents; plus a matching-only mode against reference indexes",
+    "level_text": "After every zck_copy_chunks the complete target and source files are re-read and compared with snapshots, and every valid flag is re-derived from the bytes on disk by the reference. Sources whose index promises data the body does not hold (re-sealed headers with swapped or planted digests) exercise the re-hash on copy. Sampled scenarios.",
+    "level_note": "Trusted: reference parser/digests, generator's chunk tables. Failed chunks are reset to missing between copies, as the documented procedure does.",
+    "rule": "case = (B, target pattern, sources with edits + damage, order). Non-trivial = one run contains both a chunk accepted from a damaged source and a chunk rejected (failed, zero-filled) from a damaged source, plus a quarter of the runs with a rejection only; matching mode: some but not all target chunks paired. Distinct by choice-sequence hash.",
+    "assumptions": ["no hash collisions"],
+    "runs": [
+        {"bin": "asan/C08", "cases": P(10000, 100000), "procs": P(8, 16), "size": 70, "shrink_budget": 300},
+    ],
+}
